@@ -340,6 +340,7 @@ func (p *c03) sig(c *c03case, mode string) string {
 func (p *c03) RunCase(i int) *core.CaseResult {
 	defer withNoise()()
 	r := &core.CaseResult{}
+	defer withUsage(r, "C03")()
 	c := &p.cases[i]
 	sql := p.sel(c).SQL()
 	if c.order {
